@@ -95,11 +95,13 @@ type LookupKey struct {
 // If language is not nil, and the context does not support language, the language value will silently will be ignored.
 func ToDbKey(typ uint8, b []byte, l *lang.Language) []byte {
 	k := []byte{typ}
+	// b may be the caller's key slice with spare capacity behind it: never append to it in place
+	k = append(k, b...)
 	if l != nil && l.Code != "" && typ&(DATATYPE_MENU|DATATYPE_TEMPLATE|DATATYPE_STATICLOAD) > 0 {
-		b = append(b, []byte("_"+l.Code)...)
+		k = append(k, []byte("_"+l.Code)...)
 		//s += "_" + l.Code
 	}
-	return append(k, b...)
+	return k
 }
 
 func FromDbKey(b []byte) ([]byte, error) {
